@@ -341,12 +341,17 @@ type Cfg struct {
 	Faults bool // install the storage-fault triggers (C13)
 	// NoPrevLER: the model Agglayer's headers omit the (optional) previous local exit root
 	NoPrevLER bool
+	// StoreRetriesForever: MaxRetriesStoreCertificate = 0, documented as "retry until the submitted certificate is stored"
+	StoreRetriesForever bool
 }
 
 func (c Cfg) String() string {
 	s := fmt.Sprintf("flow=%s,retry=%v,l2=%s", c.Flow, c.Retry, HistoryNames[c.Hist])
 	if c.NoPrevLER {
 		s += ",headers-without-prev-ler"
+	}
+	if c.StoreRetriesForever {
+		s += ",store-retries=forever"
 	}
 	return s
 }
@@ -388,7 +393,7 @@ func (x *Exec) buildNode() (*node, error) {
 	}
 	cfg := config.Config{
 		StoragePath:                    x.dbPath,
-		MaxRetriesStoreCertificate:     2,
+		MaxRetriesStoreCertificate:     map[bool]int{false: 2, true: 0}[x.Cfg.StoreRetriesForever],
 		DelayBetweenRetries:            cfgtypes.Duration{Duration: time.Nanosecond}, // the status-tick hook keeps a 1 ns ticker alive: a longer fake sleep would step through every tick
 		KeepCertificatesHistory:        true,
 		MaxCertSize:                    x.maxCertSize(),
